@@ -485,48 +485,10 @@ func (l *Line) appendIP6(ip net.IP) {
 		l.index = l.index + copy(l.buffer[l.index:], "nil")
 		return
 	}
-	startZ := -1
-	endZ := -1
-
-	// find longest zeroes
-	for i := 0; i < 8; i++ {
-		j := i
-		for ; j < 8; j++ {
-			if ip[j*2] != 0x00 || ip[j*2+1] != 0x00 {
-				break
-			}
-			if zeros := j - i; zeros > 1 && zeros > endZ-startZ { // longer than previous ?
-				startZ = i
-				endZ = j
-			}
-		}
-	}
-
-	if endZ == startZ {
-		startZ = 99
-	}
-	for i := 0; i < 8; i++ {
-		if i == startZ {
-			if startZ == 0 {
-				l.appendByte(':')
-			}
-			l.appendByte(':')
-			continue
-		}
-		if i >= startZ && i <= endZ {
-			continue
-		}
-		if ip[i*2] != 0x00 {
-			l.writeHexNoleadingZeros(ip[i*2])
-			l.writeHex(ip[(i*2)+1])
-		} else {
-			l.writeHexNoleadingZeros(ip[(i*2)+1])
-		}
-		l.appendByte(':')
-	}
-	if endZ < 7 {
-		l.index--
-	}
+	// RFC 5952 text: the longest run of two or more zero groups is compressed
+	// CAUTION: there must be enough space in buffer to extend otherwise it will be reallocated.
+	b := netip.AddrFrom16(*(*[16]byte)(ip)).AppendTo(l.buffer[l.index:l.index])
+	l.index = l.index + len(b)
 }
 
 // IPSlice appends a net.IP field to the line
